@@ -33,7 +33,7 @@ Init == /\ t = [inst |-> TRUE, admin |-> "admin", pending |-> OwnNone, minTime |
         /\ phase = 0 /\ sid = 0 /\ par = 0
         /\ (EmitTests => /\ TLCSet(1, 0) /\ PrintT("MODEL " \o ToJson([kind |-> "treasury"])))
 
-Digest(r) == <<r.ok, r.t.trader, Len(r.t.routes), Len(r.msgs)>>
+Digest(r) == <<r.ok, r.t.trader, Len(r.t.routes), [i \in DOMAIN r.msgs |-> r.msgs[i].k]>>
 
 \* C13 in its own words, asserted on every generated transition: a swap message exists only if the
 \* sender is the trader and the requested route is, hop for hop, one of the allow-listed routes whose
@@ -52,7 +52,9 @@ C13Holds(call, r) ==
         /\ \A j \in DOMAIN call.route : r.msgs[1].route[j][1] = call.route[j].pool
   /\ (~IsSwap(call)) => (r.msgs = << >> \/ call.m = "t_spend")
   /\ (call.m \in {"t_spend", "t_update_config"} /\ r.ok) => call.s = t.admin
-  /\ (call.m = "t_spend" /\ r.ok) => (IF call.channel = "" THEN call.rosmo ELSE call.rcel)
+  /\ (call.m = "t_spend" /\ r.ok) => /\ Len(r.msgs) = 1
+                                      /\ IF call.channel = "" THEN call.rosmo /\ r.msgs[1].k = "t_send" /\ r.msgs[1].to = call.receiver
+                                         ELSE call.rcel /\ r.msgs[1].k = "t_ibc" /\ r.msgs[1].rcv = call.receiver
   /\ (~r.ok) => r.t = t
 Do(call) ==
   LET r == TApply(t, call, T0) IN
@@ -77,7 +79,7 @@ Swap      == /\ phase = 1 /\ UNCHANGED phase
              /\ \E s \in Senders, r \in RoutesUpTo(MaxCandLen), d \in Denoms, dir \in {"t_swap_in", "t_swap_out"} :
                   Do([m |-> dir, s |-> s, route |-> r, den |-> d, amt |-> 7, limit |-> 3])
 Spend_    == /\ phase = 1 /\ UNCHANGED phase
-             /\ \E s \in Senders, rc \in {"u1", "n:u1", "osmo1bad"}, ch \in {"", "channel-1"} :
+             /\ \E s \in Senders, rc \in {"u1", "n:u1", "osmo1bad"}, ch \in {"", EmptyChannel, "channel-1"} :
                   Do([m |-> "t_spend", s |-> s, den |-> "IBCTIA", amt |-> 1, receiver |-> rc, channel |-> ch,
                       rosmo |-> rc = "u1", rcel |-> rc = "n:u1"])
 Next == Configure \/ Retrader \/ Swap \/ Spend_
